@@ -480,9 +480,9 @@ impl S {
         &self,
         input: Input<'_>,
     ) -> Result<Vec<M>, MatchError> {
-        // The iterator is bounded: at most len+2 items can ever be legal
-        // (every match either consumes a byte or is empty at a new offset).
-        let cap = input.haystack().len() + 3;
+        // The iterator is bounded: at most span length + 2 items can ever be
+        // legal (every match either consumes a byte or is empty at a new offset).
+        let cap = input.get_span().len() + 3;
         let r = route(&input);
         match self {
             S::Top(t) if r == 2 && supported(t, &input, false) => {
